@@ -15,12 +15,14 @@ VARIABLES i, bad, cnt
 vars == <<i, bad, cnt>>
 
 Eval(e) ==
-  CASE e.a = "Solve" ->
+  CASE e.err = "NotSupported" ->      \* the library raised NotImplementedError: it declines, nothing to judge (counted)
+         [cl |-> <<>>, info |-> {"Info_NotSupportedByTheLibrary"}]
+    [] e.a = "Solve" ->
          IF e.err # "" THEN [cl |-> [NoUnexpectedError |-> FALSE], info |-> {}]
          ELSE IF ~SolveWF(e) THEN [cl |-> [NoUnexpectedError |-> TRUE, SolveWellFormed |-> FALSE], info |-> {}]
          ELSE [cl |-> [NoUnexpectedError |-> TRUE, SolveWellFormed |-> TRUE, SolutionIsInterpolant |-> SolutionIsInterpolant(e)],
                info |-> {"Info_problem_" \o e.problem, "Info_bc_" \o e.bc, "Info_dirichlet_form_" \o e.dform,
-                         "Info_method_" \o e.method}
+                         "Info_method_" \o e.method, "Info_natural_form_" \o e.nform}
                         \cup (IF e.nth >= 2 THEN {"Info_LaterSolveOnTheSameAssembledSystem"} ELSE {})
                         \cup (IF e.S2 > 0 THEN {"Info_StronglyGradedMesh"} ELSE {})
                         \cup (IF \E k \in DOMAIN e.poly : PolyDeg(e.poly[k]) >= 2 THEN {"Info_DegreeAtLeast2"} ELSE {})]
